@@ -16,6 +16,13 @@ RULE = ('T2: generated API-level requests and responses (all body source types, 
 	'(content coders, Element.split and the codec lookup instantiated by the recorded tables, T3). Plus str(n)/%x for numbers, bytes(Headers), len/iter of bodies. '
 	'Oracle (independent of the model): an RFC 7230 section 3 reader written from the RFC applied to the real output, payload compared with the content '
 	'supplied, Date-masked equality of all outputs and header sets of one sequence, source content/position unchanged. '
+	'Wave-3 classes (seq cases and directed families): ONE message modified between uses through every public way (body replaced / grown in place, fields, status, method, '
+	'request of the response, protocol, framing by composer / header / transfer_encoding / body, trailer, coding, path, host; content object, Body or request shared with a second message) - '
+	'after every block of modifications the data is read back, put into a FRESH message, both are driven through the same operations and must agree octet for octet, the live output '
+	'must satisfy the property for the content held now, and every segment is replayed on the Gallina model from the read-back state; normalisation forms and look-alikes in text bodies, '
+	'text pieces, path and query; lengths 11..8192, 12288, 65535/65536 of content, pieces (chunk-size digits), piece counts, field values, reason, path segment, trailer value '
+	'(oracle-only above 1100 octets); every registered status, header field name, content / transfer coding, media-type codec name and method of the tables read from the tree, in three letter cases; '
+	'degenerate values of every field prepare() consults, of codings, body, reason, trailer, query. '
 	'non-trivial = distinct (kind, framing, source type, dropped?, coding, #ops) classes')
 EXHAUSTIVE = {'quick': False, 'thorough': False}
 TRUSTED = [
@@ -216,6 +223,7 @@ def gen_cases(rng, tier):
 					cases.append(c)
 	for _ in range(30000 if big else 1500):
 		cases.append(rmessage(rng, tier))
+	cases.extend(gen_classes(rng, tier))
 	return cases
 
 
@@ -258,6 +266,8 @@ def observe(c):
 				import os
 				os.unlink(name)
 		return o
+	if k == 'seq':
+		return run_seq(c)
 	return cr.run_ops(c)
 
 
@@ -265,6 +275,8 @@ def coq_case(c, o):
 	k = c['k']
 	if 'harness_exception' in o:
 		return 'CDec 0 []'
+	if c.get('nocoq') and k != 'seq':
+		return None   # oracle-only: the literal would be too large for a correspondence shard
 	if k == 'dec':
 		return 'CDec %s %s' % (N(c['n']), X(bytes.fromhex(o['out'])))
 	if k == 'hex':
@@ -273,6 +285,8 @@ def coq_case(c, o):
 		return 'CHcompose %s %s %s' % (cr.coq_tables(o), cr.coq_hdrs(o['items']), X(bytes.fromhex(o['out'])))
 	if k == 'body':
 		return 'CBody %s %s %s %s %s' % (cr.coq_tables(o), cr.coq_body(c, o['init']), N(o['len']), X(bytes.fromhex(o['out'])), cr.coq_fd(o['fd']))
+	if k == 'seq':
+		return coq_seq(c, o)
 	return cr.coq_case(c, o)
 
 
@@ -306,8 +320,20 @@ def oracle(c, o):
 	if 'harness_exception' in o:
 		return 'harness exception: %s' % o['harness_exception']
 	k = c['k']
+	if k == 'hcompose' and c.get('nocoq'):
+		# too long for a correspondence shard: the composed header section is read back with the RFC reader instead
+		try:
+			fields, pos = cr._fields(bytes.fromhex(o['out']), 0)
+		except cr.Malformed as exc:
+			return 'composed header section is not well formed: %s' % (exc,)
+		for name, value in c['hdrs']:
+			if (name.encode('ascii'), bytes.fromhex(value)) not in fields:
+				return 'field %s (%d octets) is not in the composed header section as it was set' % (name, len(value) // 2)
+		return None
 	if k in ('dec', 'hex', 'hcompose'):
 		return None
+	if k == 'seq':
+		return oracle_seq(c, o)
 	if k == 'body':
 		content = cr.body_content(c['body'])
 		if o['len'] != len(content):
@@ -367,6 +393,10 @@ def has_coding_header(m):
 
 def classify(c, o, fail):
 	k = c['k']
+	if k == 'seq':
+		# only the HEAD exception of repeatability can be reached by a sequence (the generator keeps D43 / D46 inputs out)
+		heads = c['base'].get('rmethod') == 'HEAD' or any(mu[0] == 'rmethod' and mu[1] == 'HEAD' for seg in c['segs'] for mu in seg['mut'])
+		return 'D45-head-second-prepare' if c['base']['k'] == 'resp' and heads and 'again' in fail else None
 	if k not in ('req', 'resp'):
 		return None
 	framing_chunked = any(op[0] == 'ch' and op[1] for op in c['ops']) or (k == 'resp' and c.get('coding') in ('gzip', 'deflate'))
@@ -389,6 +419,9 @@ def nontrivial(c, o):
 		return (k, len(c['hdrs']))
 	if k == 'body':
 		return (k, c['body']['t'], c['chunked'], c['coding'], min(len(cr.body_content(c['body'])) // 4096, 3))
+	if k == 'seq':
+		return (k, c['base']['k'], c['base']['body']['t'], tuple(tuple(mu[0] + ':' + str(mu[-1]) if mu[0] in ('body', 'status', 'method', 'rmethod', 'te', 'proto') else mu[0] for mu in seg['mut']) for seg in c['segs']),
+			tuple(len(seg['ops']) for seg in c['segs']))
 	if 'ops' not in o:
 		return None
 	return (k, c['body']['t'], dropped(c), c.get('coding'), len(c['ops']), c.get('status'), c.get('method'), min(len(cr.body_content(c['body'])) // 4096, 3),
@@ -404,3 +437,866 @@ LEVEL_TEXT = ('Machine-checked Coq theorems about an executable Gallina model of
 LEVEL_NOTE = ('Trusted: Coq kernel + vm_compute; T1/T2/T3 harness; zlib/gzip, Element.split and the request target are parameters; Python object protocol of '
 	'body sources (non-seekable streams, files changing on disk) is outside the model. No axioms (Print Assumptions: closed).')
 TECHNIQUE = 'Coq proof by induction over piece lists / operation lists on a Gallina model + vm_compute correspondence against the implementation'
+
+
+# ================================================================ the six classes of DESIGN.md section 8
+# (1) statefulness: 'seq' cases.  ONE message object (and its composer) is used several times and modified between the uses through every public
+#     way (body replaced / grown in place, fields set / removed / appended, status, method, request of the response, protocol, framing through the
+#     composer, the header, the transfer_encoding property and the body, trailer, content coding, path, host; the content object or the Body shared
+#     with a second message that is serialised in between).  After each block of modifications the observable data of the object is read back and
+#     the SAME data is put into a FRESH message: both are driven through the same prepare / compose operations and must give the same header
+#     collections and the same octets (a value cached inside an object or a class shows up here), and the live output must satisfy the property
+#     for the content the message holds NOW.  Every segment is also a correspondence case of the Gallina model (which has no hidden state).
+# (2) Unicode normalisation forms and look-alikes in the text positions of this property: text bodies and text pieces of list / generator bodies
+#     (the payload must be the UTF-8 octets of the text, code point for code point), path segments and query of the request target (validity).
+# (3) lengths at and around limits: content length, piece length (chunk-size digits), number of pieces, field value, reason phrase, path segment,
+#     trailer value.
+# (4) registries read from the tree at run time: every registered status, every header field name of HEADER in three letter cases, every
+#     content-coding / transfer-coding name in three letter cases, every method of the safe / idempotent tables in three letter cases.
+# (5) degenerate values in every field prepare() consults and in the body.
+# (6) independent re-encoding of RECEIVED data: not applicable, this property has no receiving side (C04 feeds the composed octets to the parser).
+#     What carries over - the same data handed over by the caller in another spelling (other letter case, optional white space, constructor
+#     arguments instead of attributes, another public way to the same modification) - is part of (1), (4) and (5).
+
+import io as _io
+
+UNI = ['e\u0301', '\u00e9', '\u212b', '\u00c5', 'A\u030a', '\u2126', '\u03a9', '\u212a', '\u1112\u1161\u11ab', '\ud55c', '\ufa10', '\u585a', '\uf900',
+	'\U0001f600', '\U00020000', '\U0002f800', '\ufb01', '\u1e9b\u0323', '\u0958', '\u00a0', '\u2028', '\ufeff', '\u0130', '\u00df', '\u01c4']
+LIMITS = [11, 12, 75, 76, 255, 256, 1023, 1024, 4095, 4096, 4097, 8190, 8191, 8192, 12288, 65535, 65536]
+# Kept out of SEQ_HDRS (reported): Content-Encoding.  After a response was prepared with Content-Encoding: gzip, removing the FIELD alone and preparing
+# again still sends the gzip-coded body (the coding stays on the Body), now without announcing it; ['coding', None] clears both, the public way that works.
+SEQ_HDRS = [('X-Custom', ['a', 'b c', '1']), ('Connection', ['close', 'keep-alive']), ('ETag', ['"abc"']), ('Last-Modified', ['Sun, 06 Nov 1994 08:49:37 GMT']),
+	('Content-Type', ['application/octet-stream', 'text/html']), ('Cookie', ['a=b']), ('Set-Cookie', ['a=b', 'a=b, c=d']), ('Trailer', ['X-T']),
+	('Date', ['Thu, 01 Jan 1970 00:00:00 GMT']), ('Allow', ['GET']), ('Accept-Ranges', ['none', 'bytes']), ('User-Agent', ['ua/2']), ('Accept', ['text/html']),
+	('Host', ['other.example']), ('Vary', ['*']), ('Content-Length', ['7', '0'])]
+
+
+def sym_init(base):
+	st = {'k': base['k'], 'content': cr.body_content(base['body']), 'body': dict(base['body']), 'attached': True, 'ce': None, 'te': None, 'dropped_now': False}
+	for name, value in base.get('hdrs', []):
+		sym_hdr(st, name, bytes.fromhex(value))
+	if base.get('coding'):
+		st['ce'] = base['coding'].encode('ascii')
+	if base['k'] == 'req':
+		st['method'] = base['method']
+	else:
+		st['status'] = base['status']
+		st['rmethod'] = base.get('rmethod', 'GET')
+	return st
+
+
+def sym_hdr(st, name, value):
+	if name.lower() == 'content-encoding':
+		st['ce'] = value
+	if name.lower() == 'transfer-encoding':
+		st['te'] = value
+
+
+def sym_mut(st, mu):
+	"""what a modification means for the data the message holds (independent of the implementation)"""
+	t = mu[0]
+	if t == 'body':
+		st['body'] = dict(mu[1])
+		st['content'] = cr.body_content(mu[1])
+		st['attached'] = True
+	elif t == 'grow':
+		st['content'] += bytes.fromhex(mu[1])
+		b = st['body']
+		if b['t'] == 'list':
+			b['items'] = list(b['items']) + [mu[1]]
+			b['strs'] = list(b.get('strs') or [False] * (len(b['items']) - 1)) + [False]
+		else:
+			b['items'] = [st['content'].hex()]
+	elif t == 'status':
+		st['status'] = mu[1]
+	elif t == 'method':
+		st['method'] = mu[1]
+	elif t == 'rmethod':
+		st['rmethod'] = mu[1]
+	elif t in ('hset', 'happend'):
+		sym_hdr(st, mu[1], bytes.fromhex(mu[2]))
+	elif t in ('hpop', 'hdel'):
+		sym_hdr(st, mu[1], None)
+	elif t == 'coding':
+		st['ce'] = mu[1].encode('ascii') if mu[1] else None
+	elif t == 'te':
+		st['te'] = None   # exactly 'chunked' or absent
+
+
+def sym_prepare(st):
+	if st['k'] == 'req' and st['content'] and not dropped(st):
+		st['cl_written'] = True
+	if dropped(st):
+		st['content'] = b''
+		st['body'] = {'t': 'bytes', 'items': []}
+		st['attached'] = False
+		st['dropped_now'] = True
+
+
+def _snap_body(body, st):
+	from types import GeneratorType
+	fd = body.fd
+	if isinstance(fd, _io.BytesIO):
+		return {'t': 'bytesio', 'items': [fd.getvalue().hex()], 'pos': fd.tell()}
+	if isinstance(fd, (list, tuple)):
+		return {'t': 'list' if isinstance(fd, list) else 'tuple', 'items': [(x if isinstance(x, bytes) else x.encode('utf-8')).hex() for x in fd], 'strs': [not isinstance(x, bytes) for x in fd]}
+	if isinstance(fd, GeneratorType) or type(fd) is type(iter([])):
+		# a generator cannot be looked into: it is the one the harness made from the items of the last body assignment, not yet run
+		if st['body']['t'] != 'gen':
+			raise ValueError('unexpected generator source')
+		return {'t': 'gen', 'items': list(st['body']['items']), 'strs': list(st['body'].get('strs') or [])}
+	if hasattr(fd, 'fileno'):
+		pos = fd.tell()
+		fd.seek(0)
+		data = fd.read()
+		fd.seek(pos)
+		return {'t': 'file', 'items': [data.hex()], 'pos': pos}
+	raise ValueError('unexpected source %s' % type(fd).__name__)
+
+
+def _snapshot(m, c, st, uri):
+	"""the observable data of the message, read through the public attributes"""
+	ce = m.body.content_encoding
+	snap = {'k': st['k'], 'version': [m.protocol.major, m.protocol.minor], 'hdrs': cr.hdr_items(m.headers), 'body': _snap_body(m.body, st), 'chunked': bool(m.body.chunked),
+		'coding': bytes(ce).hex() if ce else None, 'ctype': bytes(m.body.mimetype).hex(), 'trailer': cr.hdr_items(m.body.trailer)}
+	if st['k'] == 'req':
+		snap['method'] = bytes(m.method).decode('latin-1')
+		snap['uri'] = dict(uri)
+	else:
+		snap['status'] = int(m.status)
+		snap['reason'] = m.status.reason
+		snap['rmethod'] = bytes(c.request.method).decode('latin-1')
+	return snap
+
+
+def _fresh(snap, keep):
+	"""a new message holding the data of the snapshot, built through the public API"""
+	from httoop import Request, Response
+	from httoop.semantic.request import ComposedRequest
+	from httoop.semantic.response import ComposedResponse
+	if snap['k'] == 'req':
+		m = Request(snap['method'], '/')
+		m.protocol = tuple(snap['version'])
+		u, uri = m.uri, snap['uri']
+		if uri.get('host'):
+			u.scheme = uri.get('scheme') or 'http'
+			u.host = uri['host']
+			if uri.get('port'):
+				u.port = uri['port']
+		u.path_segments = uri['segs']
+		if uri.get('query') is not None:
+			u.query = [tuple(p) for p in uri['query']]
+		c = ComposedRequest(m)
+	else:
+		m = Response()
+		m.protocol = tuple(snap['version'])
+		m.status = (snap['status'], snap['reason'])
+		c = ComposedResponse(m, Request(snap['rmethod'], '/'))
+	for name, value in snap['hdrs']:
+		m.headers[bytes.fromhex(name).decode('latin-1')] = bytes.fromhex(value)
+	m.body = cr._content(snap['body'], keep)
+	m.body.mimetype = bytes.fromhex(snap['ctype'])
+	if snap['coding']:
+		m.body.content_encoding = bytes.fromhex(snap['coding'])
+	m.body.chunked = snap['chunked']
+	for name, value in snap['trailer']:
+		m.body.trailer[bytes.fromhex(name).decode('latin-1')] = bytes.fromhex(value)
+	return m, c
+
+
+def _init_obs(m, c, k):
+	from httoop.header import Headers
+	init = {'hdrs': cr.hdr_items(m.headers), 'chunked': bool(m.body.chunked), 'ctype': bytes(m.body.mimetype).hex(),
+		'codec': cr.codec_id(m.body), 'trailer': cr.hdr_items(m.body.trailer), 'fd': cr.fd_obs(m.body)}
+	if k == 'req':
+		init['target'] = cr.request_target(m).hex()
+		init['host'] = bytes(Headers.formatvalue(m.uri.host)).hex() if m.uri.host else None
+		init['startline_method'] = bytes(m.method).hex()
+	else:
+		init['code'] = int(m.status)
+		init['reason'] = m.status.reason.encode('ascii').hex()
+	init['ce'] = [[v, cr.ce_id(bytes.fromhex(v))] for k_, v in init['hdrs'] if bytes.fromhex(k_) == b'Content-Encoding']
+	return init
+
+
+def _steps(m, c, ops, clock):
+	"""the operation loop of composer_rec.run_ops on a message that exists already"""
+	steps = []
+	for op in ops:
+		try:
+			if op[0] == 'p':
+				clock.now = float(op[1])
+				try:
+					c.prepare()
+				finally:
+					clock.now = cr.COMPOSE_CLOCK
+				steps.append({'state': {'hdrs': cr.hdr_items(m.headers), 'fd': cr.fd_obs(m.body), 'chunked': bool(m.body.chunked)}, 'now': cr.date_of(float(op[1])).hex()})
+			elif op[0] == 'ch':
+				c.chunked = bool(op[1])
+				steps.append({'state': {'hdrs': cr.hdr_items(m.headers), 'fd': cr.fd_obs(m.body), 'chunked': bool(m.body.chunked)}})
+			elif op[0] == 'c':
+				out = b''.join(c)
+				steps.append({'out': out.hex(), 'fd': cr.fd_obs(m.body)})
+			else:
+				raise ValueError(op)
+		except Exception as exc:
+			steps.append({'raised': type(exc).__name__, 'msg': str(exc)[:120], 'op': op[0]})
+			break
+	return steps
+
+
+def _apply(m, c, mu, uri, keep, others):
+	from httoop import Request, Response
+	from httoop.messages.body import Body
+	from httoop.semantic.request import ComposedRequest
+	from httoop.semantic.response import ComposedResponse
+	from httoop.status import Status
+	t = mu[0]
+	if t == 'body':
+		obj = cr._content(mu[1], keep)
+		if mu[2] == 'attr':
+			m.body = obj
+		elif mu[2] == 'set':
+			m.body.set(obj)
+		else:
+			m.body = Body(obj)
+	elif t == 'grow':
+		data = bytes.fromhex(mu[1])
+		fd = m.body.fd   # the object the caller handed over and still holds
+		if isinstance(fd, list):
+			fd.append(data)
+		elif isinstance(fd, _io.BytesIO):
+			pos = fd.tell()
+			fd.seek(0, 2)
+			fd.write(data)
+			fd.seek(pos)
+		elif hasattr(fd, 'fileno'):
+			with open(fd.name, 'ab') as w:
+				w.write(data)
+		else:
+			raise ValueError('grow: %s' % type(fd).__name__)
+	elif t == 'hset':
+		m.headers[mu[1]] = bytes.fromhex(mu[2])
+	elif t == 'hpop':
+		m.headers.pop(mu[1], None)
+	elif t == 'hdel':
+		if mu[1] in m.headers:
+			del m.headers[mu[1]]
+	elif t == 'happend':
+		m.headers.append(mu[1], bytes.fromhex(mu[2]))
+	elif t == 'status':
+		code, reason, how = mu[1], mu[2], mu[3]
+		if how == 'int':
+			m.status = code
+		elif how == 'tuple':
+			m.status = (code, reason or 'R')
+		elif how == 'code':
+			m.status.code = code
+		elif how == 'str':
+			m.status = '%d %s' % (code, reason or 'R')
+		else:
+			m.status = Status(code)
+	elif t == 'method':
+		if mu[2] == 'attr':
+			m.method = mu[1]
+		elif mu[2] == 'set':
+			m.method.set(mu[1])
+		else:
+			m.method.parse(mu[1].encode('ascii'))
+	elif t == 'rmethod':
+		if mu[2] == 'attr':
+			c.request.method = mu[1]
+		else:
+			c.request = Request(mu[1], '/')
+	elif t == 'proto':
+		if mu[2] == 'tuple':
+			m.protocol = tuple(mu[1])
+		elif mu[2] == 'str':
+			m.protocol = 'HTTP/%d.%d' % tuple(mu[1])
+		else:
+			m.protocol = b'HTTP/%d.%d' % tuple(mu[1])
+	elif t == 'te':
+		flag, how = mu[1], mu[2]
+		if how == 'composer':
+			c.chunked = flag
+		elif how == 'header':
+			if flag:
+				m.headers['Transfer-Encoding'] = 'chunked'
+			else:
+				m.headers.pop('Transfer-Encoding', None)
+		elif how == 'teprop':
+			c.transfer_encoding = b'chunked' if flag else None
+		else:
+			m.body.chunked = flag
+	elif t == 'trailer':
+		m.body.trailer[mu[1]] = bytes.fromhex(mu[2])
+	elif t == 'trailer-pop':
+		m.body.trailer.pop(mu[1], None)
+	elif t == 'coding':
+		# the complete public way: the field of the message and the coding of the body
+		if mu[1]:
+			m.headers['Content-Encoding'] = mu[1]
+		else:
+			m.headers.pop('Content-Encoding', None)
+			m.body.content_encoding = None
+	elif t == 'path':
+		m.uri.path_segments = mu[1]
+		uri['segs'] = mu[1]
+	elif t == 'host':
+		m.uri.host = mu[1]
+		uri['host'] = mu[1]
+	elif t == 'other':
+		spec = mu[1]
+		if spec['kind'] == 'req':
+			m2 = Request('POST', '/o')
+			c2 = ComposedRequest(m2)
+		else:
+			m2 = Response()
+			c2 = ComposedResponse(m2, c.request if spec['share'] == 'request' else Request('GET', '/'))
+		if spec['share'] == 'content':
+			m2.body = m.body.fd
+		elif spec['share'] == 'bodyobj':
+			m2.body = m.body
+		if spec.get('chunked'):
+			c2.chunked = True
+		c2.prepare()
+		others.append(b''.join(c2).hex())
+	else:
+		raise ValueError(mu)
+
+
+def run_seq(case):
+	cr.install()
+	base = case['base']
+	keep = []
+	obs = {'segs': []}
+	st = sym_init(base)
+	uri = {k: base.get(k) for k in ('segs', 'query', 'host', 'port', 'scheme')}
+	try:
+		with cr.Clock() as clock:
+			m, c = cr.build(dict(base, ops=[]), keep)
+			for seg in case['segs']:
+				so = {'others': []}
+				obs['segs'].append(so)
+				try:
+					for mu in seg['mut']:
+						_apply(m, c, mu, uri, keep, so['others'])
+						sym_mut(st, mu)
+				except Exception as exc:
+					so['mut_raised'] = '%s: %s (%r)' % (type(exc).__name__, str(exc)[:120], mu)
+					break
+				cr.REC.reset()
+				so['snap'] = _snapshot(m, c, st, uri)
+				so['init'] = _init_obs(m, c, st['k'])
+				so['live'] = _steps(m, c, seg['ops'], clock)
+				so['tables'] = {
+					'comp': [[k[0], k[1].hex(), v.hex()] for k, v in cr.REC.comp.items()],
+					'lsplit': [[k[0].hex(), k[1].hex(), [x.hex() for x in v]] for k, v in cr.REC.lsplit.items()],
+				}
+				try:
+					fd = m.body.fd
+					if isinstance(fd, (list, tuple)):
+						so['final_content'] = b''.join(x if isinstance(x, bytes) else x.encode('utf-8') for x in fd).hex()
+					elif hasattr(fd, 'read') and hasattr(fd, 'seek'):
+						pos = fd.tell()
+						fd.seek(0)
+						so['final_content'] = fd.read().hex()
+						fd.seek(pos)
+					else:
+						so['final_content'] = None
+				except Exception:
+					so['final_content'] = None
+				so['final_fd'] = cr.fd_obs(m.body)
+				# the same data in a fresh object, the same operations
+				try:
+					m2, c2 = _fresh(so['snap'], keep)
+					so['fresh'] = _steps(m2, c2, seg['ops'], clock)
+				except Exception as exc:
+					so['fresh_raised'] = '%s: %s' % (type(exc).__name__, str(exc)[:120])
+				if any('raised' in s for s in so['live']):
+					break
+				for op in seg['ops']:
+					if op[0] == 'p':
+						sym_prepare(st)
+	finally:
+		for fd, name in keep:
+			try:
+				fd.close()
+			except Exception:
+				pass
+			try:
+				os.unlink(name)
+			except OSError:
+				pass
+	return obs
+
+
+import os  # noqa: E402
+
+
+def _te_in_model(hdrs):
+	"""the composer model covers Transfer-Encoding absent / empty / exactly 'chunked' and Content-Encoding values with a non-empty element (for an
+	empty one - '', ' ', ';' - the library neither looks a codec up nor refuses; the model would refuse): everything else is oracle-only"""
+	for k, v in hdrs:
+		if bytes.fromhex(k) == b'Transfer-Encoding' and bytes.fromhex(v) not in (b'', b'chunked'):
+			return False
+		if bytes.fromhex(k) == b'Content-Encoding' and not bytes.fromhex(v).split(b';')[0].strip(b' \t'):
+			return False
+	return True
+
+
+def coq_seq(c, o):
+	"""one correspondence case per segment: the model starts from the data read back from the live object"""
+	if c.get('nocoq'):
+		return None
+	terms = []
+	for seg, so in zip(c['segs'], o.get('segs', [])):
+		if 'live' not in so or not _te_in_model(so['init']['hdrs']) or seg.get('nocoq'):
+			continue
+		snap = so['snap']
+		pc = {'k': snap['k'], 'version': snap['version'], 'body': snap['body'], 'rmethod': snap.get('rmethod', 'GET'), 'ops': seg['ops']}
+		term = cr.coq_case(pc, {'init': so['init'], 'ops': so['live'], 'tables': so['tables']})
+		if len(term) <= 12000:
+			terms.append(term)
+	return terms or None
+
+
+def announced_codings(m):
+	"""the content codings a recipient has to undo, read from the composed octets: names are case-insensitive (RFC 7231 3.1.2.1), parameters and
+	empty list elements are ignored"""
+	out = []
+	for n, v in m['fields']:
+		if n.lower() == b'content-encoding':
+			for x in v.split(b','):
+				x = x.split(b';')[0].strip(b' \t').lower()
+				if x:
+					out.append(x.decode('latin-1'))
+	return out
+
+
+def undo_codings(m):
+	payload = m['payload']
+	for name in reversed(announced_codings(m)):
+		if name in ('gzip', 'x-gzip'):
+			payload = cr.decode_coding('gzip', payload)
+		elif name == 'deflate':
+			payload = cr.decode_coding('deflate', payload)
+		elif name != 'identity':
+			raise ValueError('%r is not a content coding this reader knows (gzip, x-gzip, deflate, identity)' % name)
+	return payload
+
+
+def coding_refusable(value, names):
+	"""may prepare() refuse this caller-set coding field with InvalidHeader?  Yes unless it is, read independently, the plain lower-case spelling of
+	codings the library implements (other letter cases are refused by the tree as found: reported as an observation, not as a failure)"""
+	if value is None:
+		return False
+	toks = [x.split(b';')[0].strip(b' \t') for x in value.split(b',')]
+	toks = [x for x in toks if x]
+	return not all(x in names for x in toks) or len(toks) > 1 or b'"' in value or (b',' in value and b'chunked' not in names)
+
+
+def oracle_seq(c, o):
+	base = c['base']
+	if not in_domain(base):
+		return None
+	st = sym_init(base)
+	k = base['k']
+	for n, (seg, so) in enumerate(zip(c['segs'], o['segs'])):
+		if 'mut_raised' in so:
+			return 'segment %d: modifying the message through its public API raised %s' % (n, so['mut_raised'])
+		others = list(so['others'])
+		for mu in seg['mut']:
+			if mu[0] == 'other':
+				# a second message that shares the content object / the Body / the request with the first, serialised at this point
+				spec, out2 = mu[1], others.pop(0)
+				nobody = spec['share'] == 'request' and k == 'resp' and st.get('rmethod') == 'HEAD'
+				try:
+					m2 = cr.read_http1(bytes.fromhex(out2), spec['kind'] == 'req', nobody)
+				except cr.Malformed as exc:
+					return 'segment %d: a second message sharing the %s is not well framed: %s' % (n, spec['share'], exc)
+				want2 = st['content'] if spec['share'] in ('content', 'bodyobj') else b''
+				if m2['payload'] != want2:
+					return 'segment %d: a second message sharing the %s carries %d octets, the content has %d' % (n, spec['share'], len(m2['payload']), len(want2))
+			sym_mut(st, mu)
+		live = so['live']
+		if 'fresh_raised' in so:
+			return 'harness exception: building the fresh message: %s' % so['fresh_raised']
+		fresh = so['fresh']
+		st['dropped_now'] = False
+		prepared = False
+		outs, states = [], []
+		for op, a, b in zip(seg['ops'], live, fresh):
+			what = {'p': 'prepare()', 'c': 'serialising', 'ch': 'the chunked setter'}[op[0]]
+			if ('raised' in a) != ('raised' in b) or a.get('raised') != b.get('raised'):
+				return 'segment %d: %s on the message used before %s, on a fresh message with the same data %s' % (n, what,
+					'raised ' + a['raised'] if 'raised' in a else 'succeeded', 'raised ' + b['raised'] if 'raised' in b else 'succeeded')
+			if 'raised' in a:
+				if a['raised'] == 'InvalidHeader' and (coding_refusable(st['ce'], (b'gzip', b'deflate')) or coding_refusable(st['te'], (b'chunked',))):
+					return None
+				return 'segment %d: operation %r raised %s: %s' % (n, a['op'], a['raised'], a.get('msg'))
+			if op[0] == 'ch':
+				prepared = False
+				outs, states = [], []
+			if op[0] in ('p', 'ch'):
+				if a['state'] != b['state']:
+					return 'segment %d: after %s the message used before differs from a fresh message with the same data: %r versus %r' % (n, what,
+						[(bytes.fromhex(x), bytes.fromhex(y)) for x, y in a['state']['hdrs']], [(bytes.fromhex(x), bytes.fromhex(y)) for x, y in b['state']['hdrs']])
+			if op[0] == 'p':
+				sym_prepare(st)
+				prepared = True
+				states.append(tuple(sorted((x, y) for x, y in a['state']['hdrs'] if bytes.fromhex(x) != b'Date')))
+				if len(set(states)) > 1:
+					return 'segment %d: preparing the message again changes the header fields (beyond the Date value)' % n
+			elif op[0] == 'c':
+				if a['out'] != b['out']:
+					return 'segment %d: the message used before serialises to other octets than a fresh message with the same data: %r versus %r' % (n,
+						bytes.fromhex(a['out'])[:300], bytes.fromhex(b['out'])[:300])
+				if not prepared:
+					continue
+				data = bytes.fromhex(a['out'])
+				try:
+					m = cr.read_http1(data, k == 'req', rfc_bodiless(st))
+				except cr.Malformed as exc:
+					return 'segment %d: composed output is not a well-framed HTTP/1.x message: %s' % (n, exc)
+				try:
+					payload = undo_codings(m)
+				except Exception as exc:
+					return 'segment %d: payload does not decode with the announced coding: %s' % (n, exc)
+				want = b'' if rfc_bodiless(st) else st['content']
+				if payload != want:
+					return 'segment %d: framed payload (%d octets) differs from the content the message holds (%d octets)' % (n, len(payload), len(want))
+				outs.append(cr.mask_date(data))
+				if len(set(outs)) > 1:
+					return 'segment %d: composing the prepared message again gives different octets (beyond the Date value)' % n
+		if len(live) < len(seg['ops']):
+			return 'harness exception: operations missing'
+		if so.get('final_content') is not None:
+			if bytes.fromhex(so['final_content']) != st['content']:
+				return 'segment %d: the body source no longer holds the content after the operations' % n
+			if not st['dropped_now'] and so['init']['fd'][0] in ('bytesio', 'file') and so.get('final_fd') != so['init']['fd']:
+				return 'segment %d: the position of the body source is not restored: %r became %r' % (n, so['init']['fd'], so.get('final_fd'))
+	return None
+
+
+# ---------------------------------------------------------------- generators of the classes
+def _small_body(rng, tier):
+	for _ in range(20):
+		b = rbody(rng, tier)
+		if len(cr.body_content(b)) <= 120:
+			return b
+	return {'t': 'bytes', 'items': [b'hello'.hex()]}
+
+
+def _seq_base(rng, tier, kind=None):
+	base = rmessage(rng, tier)
+	if kind and base['k'] != kind:
+		return _seq_base(rng, tier, kind)
+	del base['ops']
+	base['body'] = _small_body(rng, tier)
+	base['trailer'] = []
+	if base['k'] == 'req':
+		# D43 (no content coding in ComposedRequest.prepare) and D46 (caller-set Content-Length of a request) are known findings of single uses: kept out
+		base['coding'] = None
+		base['hdrs'] = [h for h in base['hdrs'] if h[0].lower() != 'content-length']
+	elif base['coding'] == 'x-unknown':
+		base['coding'] = None
+	return base
+
+
+def _seq_ops(rng, st, ts):
+	head = st['k'] == 'resp' and st.get('rmethod') == 'HEAD'   # D45: a response to HEAD is prepared once per segment
+	r = rng.random()
+	if r < 0.45:
+		ops = [['p', ts], ['c']]
+	elif r < 0.6:
+		ops = [['p', ts], ['c'], ['c']]
+	elif r < 0.75 and not head:
+		ops = [['p', ts], ['c'], ['p', ts + rng.choice([0, 1, 86400])], ['c']]
+	elif r < 0.85:
+		ops = [['ch', rng.random() < 0.5], ['p', ts], ['c']]
+	elif r < 0.92:
+		ops = [['c']]
+	else:
+		ops = [['p', ts], ['c'], ['ch', rng.random() < 0.5], ['p', ts], ['c']] if not head else [['p', ts], ['c']]
+	return ops
+
+
+def _seq_mut(rng, tier, st):
+	k = st['k']
+	kinds = ['body', 'body', 'body', 'hset', 'hset', 'hpop', 'happend', 'te', 'te', 'trailer', 'proto', 'other', 'other']
+	if st['attached'] and st['body']['t'] in ('list', 'bytesio', 'file'):
+		kinds += ['grow'] * 4
+	if k == 'req':
+		kinds += ['method', 'method', 'path', 'host']
+	else:
+		kinds += ['status', 'status', 'status', 'rmethod', 'rmethod', 'coding', 'coding']
+	t = rng.choice(kinds)
+	# Kept out (D46 reached through a sequence, reported): a request that was prepared with content keeps the Content-Length of that prepare when
+	# its content becomes empty or its method one without body afterwards (prepare never removes the field).
+	stale = k == 'req' and st.get('cl_written')
+	if t == 'body':
+		for _ in range(50):
+			b = _small_body(rng, tier)
+			if not stale or cr.body_content(b):
+				break
+		else:
+			b = {'t': 'bytes', 'items': [b'hello'.hex()]}
+		return ['body', b, rng.choice(['attr', 'attr', 'set', 'bodyobj'])]
+	if t == 'grow':
+		return ['grow', rdata(rng, rng.choice([1, 1, 2, 7, 30])).hex()]
+	if t in ('hset', 'hpop', 'happend'):
+		pool = [h for h in SEQ_HDRS if not (k == 'req' and h[0] in ('Content-Length', 'Accept-Ranges'))]
+		name, vals = rng.choice(pool)
+		name = rng.choice([name, name, name.lower(), name.upper()])
+		if t == 'hpop':
+			return [rng.choice(['hpop', 'hdel']), name]
+		return [t, name, rng.choice(vals).encode('latin-1').hex()]
+	if t == 'te':
+		return ['te', rng.random() < 0.5, rng.choice(['composer', 'header', 'teprop', 'body'])]
+	if t == 'trailer':
+		return rng.choice([['trailer', 'X-T', b'tv'.hex()], ['trailer', 'x-t', b''.hex()], ['trailer-pop', 'X-T']])
+	if t == 'proto':
+		return ['proto', rng.choice([[1, 0], [1, 1]]), rng.choice(['tuple', 'str', 'bytes'])]
+	if t == 'other':
+		share = rng.choice(['content', 'bodyobj'] + (['request'] if k == 'resp' else []))
+		if share == 'content' and st['body']['t'] == 'gen':
+			share = 'bodyobj'   # a Python generator handed to two consumers is the caller's problem; the Body around it is shared instead
+		if st['body']['t'] == 'gen':
+			return ['proto', [1, 1], 'tuple']   # ... and a second Body on the same generator likewise
+		return ['other', {'share': share, 'kind': 'resp' if share == 'request' else rng.choice(['req', 'resp']), 'chunked': rng.random() < 0.5}]
+	if t == 'method':
+		return ['method', rng.choice([x for x in METHODS_REQ if not (stale and x in ('GET', 'HEAD', 'SEARCH'))]), rng.choice(['attr', 'set', 'parse'])]
+	if t == 'path':
+		return ['path', ['', rng.choice(['a', 'b c', 'ä', 'x.y'])]]
+	if t == 'host':
+		return ['host', rng.choice(['example.com', 'other.example', '127.0.0.1'])]
+	if t == 'status':
+		return ['status', rng.choice(STATUSES), rng.choice([None, 'Custom Reason']), rng.choice(['int', 'tuple', 'code', 'str', 'obj'])]
+	if t == 'rmethod':
+		return ['rmethod', rng.choice(['GET', 'HEAD', 'HEAD', 'POST', 'TRACE']), rng.choice(['attr', 'new'])]
+	if t == 'coding':
+		return ['coding', rng.choice([None, 'gzip', 'deflate'])]
+	raise ValueError(t)
+
+
+def rseq(rng, tier, kind=None):
+	base = _seq_base(rng, tier, kind)
+	st = sym_init(base)
+	ts = rng.choice([1000, 784111777, 1790000000])
+	segs = []
+	for i in range(rng.choice([2, 2, 3, 3, 4])):
+		mut = []
+		if i > 0 or rng.random() < 0.2:
+			for _ in range(rng.choice([1, 1, 1, 2, 3])):
+				mu = _seq_mut(rng, tier, st)
+				sym_mut(st, mu)
+				mut.append(mu)
+		ops = _seq_ops(rng, st, ts)
+		for op in ops:
+			if op[0] == 'p':
+				sym_prepare(st)
+		segs.append({'mut': mut, 'ops': ops})
+		if rng.random() < 0.5:
+			ts += rng.choice([1, 61, 86400])
+	return {'k': 'seq', 'base': base, 'segs': segs}
+
+
+def _msg(kind, body, chunked=False, ops=None, **kw):
+	c = {'k': kind, 'version': [1, 1], 'hdrs': [], 'body': body, 'coding': None, 'trailer': [],
+		'ops': ([['ch', True]] if chunked else []) + (ops or [['p', 1000], ['c'], ['p', 1000], ['c']])}
+	if kind == 'req':
+		c.update(method='POST', segs=['', 'p'], query=None, host='example.com')
+	else:
+		c.update(status=200, reason=None, rmethod='GET')
+	c.update(kw)
+	return c
+
+
+def _base(kind, body=None, **kw):
+	c = _msg(kind, body or {'t': 'bytes', 'items': [b'hello'.hex()]}, **kw)
+	del c['ops']
+	return c
+
+
+def _one(kind, mut, chunked=False, ops=None, **kw):
+	"""a message modified once through the header API / attributes, then prepared and composed twice"""
+	nocoq = kw.pop('nocoq', False)
+	c = {'k': 'seq', 'base': _base(kind, **kw), 'segs': [{'mut': mut, 'ops': ([['ch', True]] if chunked else []) + (ops or [['p', 1000], ['c'], ['c']])}]}
+	if nocoq:
+		c['nocoq'] = True
+	return c
+
+
+def _cases3(name):
+	out = []
+	for v in (name, name.upper(), name.lower(), name.title()):
+		if v not in out:
+			out.append(v)
+	return out[:3]
+
+
+REG_VALUES = {'content-length': '5', 'transfer-encoding': 'chunked', 'content-encoding': 'gzip', 'connection': 'close', 'trailer': 'X-T', 'host': 'h.example',
+	'date': 'Thu, 01 Jan 1970 00:00:00 GMT', 'etag': '"x"', 'last-modified': 'Sun, 06 Nov 1994 08:49:37 GMT', 'content-type': 'text/html', 'allow': 'GET',
+	'accept-ranges': 'bytes', 'range': 'bytes=0-1', 'set-cookie': 'a=b', 'www-authenticate': 'Basic realm="x"', 'proxy-authenticate': 'Basic realm="p"',
+	'expect': '100-continue', 'te': 'trailers', 'upgrade': 'h2c', 'http2-settings': 'AAMAAABk', 'if-modified-since': 'Sun, 06 Nov 1994 08:49:37 GMT',
+	'expires': 'Thu, 01 Jan 1970 00:00:00 GMT', 'cookie': 'a=b', 'content-range': 'bytes 0-1/2', 'retry-after': '120', 'max-forwards': '3', 'age': '1'}
+DEGENERATE = ['', ' ', ',', ', ,', ';', '"', '"a', 'a,,b', '=', ' x ', '\t', ';;', 'a;', '""']
+DEGENERATE_FIELDS = ['Connection', 'Content-Type', 'Trailer', 'Host', 'Allow', 'Etag', 'Last-Modified', 'Accept-Ranges', 'Content-Length', 'Date', 'User-Agent', 'Accept',
+	'Cookie', 'Set-Cookie', 'Www-Authenticate', 'Content-Range', 'Vary', 'Expect', 'Upgrade', 'Te']
+
+
+def registries():
+	"""the tables the composer consults, read from the tree under test at run time"""
+	from httoop.header.element import HEADER
+	from httoop.header.messaging import ContentEncoding, TransferEncoding
+	from httoop.messages.method import Method
+	from httoop.status import STATUSES as REG
+	from httoop.codecs import CODECS as MEDIA
+	return {'media': sorted(MEDIA), 'status': sorted(s for s in REG if isinstance(s, int) and 100 <= s <= 599), 'header': sorted(dict.keys(HEADER)),
+		'ce': sorted(ContentEncoding.CODECS.items(), key=lambda kv: kv[0]), 'te': sorted(TransferEncoding.CODECS.items(), key=lambda kv: kv[0]),
+		'method': sorted(set(Method.safe_methods) | set(Method.idempotent_methods))}
+
+
+def gen_classes(rng, tier):
+	big = tier == 'thorough'
+	cases = []
+	hello = {'t': 'bytes', 'items': [b'hello'.hex()]}
+
+	# (1) statefulness: random modification sequences, plus every single modification kind x every public way on a fixed message
+	for _ in range(12000 if big else 450):
+		cases.append(rseq(rng, tier))
+	two = [['p', 1000], ['c']]
+	for kind in ('req', 'resp'):
+		singles = [['body', {'t': t, 'items': [b'wxyz123'.hex()], 'pos': 3}, how] for t in ('bytes', 'text', 'list', 'gen', 'bytesio', 'file') for how in ('attr', 'set', 'bodyobj')]
+		singles += [['body', {'t': 'bytes', 'items': []}, 'attr'], ['hset', 'X-Custom', b'v'.hex()], ['te', True, 'composer'], ['te', True, 'header'], ['te', True, 'teprop'], ['te', True, 'body'],
+			['trailer', 'X-T', b'v'.hex()], ['proto', [1, 0], 'tuple'], ['proto', [1, 0], 'str'], ['proto', [1, 0], 'bytes']]
+		if kind == 'req':
+			singles += [['method', mth, how] for mth in ('GET', 'HEAD', 'PUT', 'TRACE') for how in ('attr', 'set', 'parse')] + [['path', ['', 'q']], ['host', 'other.example']]
+		else:
+			singles += [['status', code, None, how] for code in (100, 204, 205, 304, 404, 416) for how in ('int', 'tuple', 'code', 'str', 'obj')]
+			singles += [['rmethod', mth, how] for mth in ('HEAD', 'TRACE') for how in ('attr', 'new')] + [['coding', 'gzip'], ['coding', 'deflate']]
+		for mu in singles:
+			# (a request whose content disappears starts chunked, so that no Content-Length was written before: D46, see _seq_mut)
+			first = [['ch', True]] + two if kind == 'req' and ((mu[0] == 'method' and mu[1] in ('GET', 'HEAD')) or (mu[0] == 'body' and not mu[1]['items'])) else two
+			for t in (('bytes', 'file') if mu[0] in ('te', 'status', 'method', 'rmethod') else ('bytes',)):
+				cases.append({'k': 'seq', 'base': _base(kind, {'t': t, 'items': [b'hello'.hex()]}), 'segs': [{'mut': [], 'ops': first}, {'mut': [mu], 'ops': two}, {'mut': [], 'ops': two}]})
+		# the source the caller still holds grows between two uses; a second message shares the content / the Body / the request
+		for t in ('list', 'bytesio', 'file'):
+			for ch in (False, True):
+				cases.append({'k': 'seq', 'base': _base(kind, {'t': t, 'items': [b'hello'.hex()], 'pos': 2}), 'segs': [{'mut': [], 'ops': ([['ch', True]] if ch else []) + two},
+					{'mut': [['grow', b' world'.hex()]], 'ops': two}, {'mut': [['grow', b'!'.hex()], ['grow', b'?'.hex()]], 'ops': two + two}]})
+		for t in ('bytes', 'list', 'tuple', 'bytesio', 'file'):
+			for share in ('content', 'bodyobj') + (('request',) if kind == 'resp' else ()):
+				for k2 in ('req', 'resp'):
+					cases.append({'k': 'seq', 'base': _base(kind, {'t': t, 'items': [b'hello'.hex()], 'pos': 1}), 'segs': [{'mut': [['other', {'share': share, 'kind': 'resp' if share == 'request' else k2, 'chunked': k2 == 'req'}]], 'ops': two},
+						{'mut': [['other', {'share': share, 'kind': 'resp' if share == 'request' else k2, 'chunked': k2 != 'req'}]], 'ops': two}]})
+	# two different messages of one class after each other (a result kept on the class rather than on the object): sizes differ, same everything else
+	for n in (1, 2, 3, 10, 11, 100):
+		for t in ('bytes', 'list', 'file'):
+			cases.append(_msg('resp', {'t': t, 'items': [(b'x' * n).hex()]}))
+			cases.append(_msg('req', {'t': t, 'items': [(b'y' * n).hex()]}, chunked=n % 2 == 0))
+
+	# (2) normalisation forms and look-alikes: text body, text pieces, path and query
+	for i, u in enumerate(UNI):
+		for text in (u, 'a' + u + 'b' + u):
+			h = text.encode('utf-8').hex()
+			cases.append(_msg('resp', {'t': 'text', 'items': [h]}, chunked=i % 2 == 0))
+			cases.append(_msg('req', {'t': 'list', 'items': [b'x'.hex(), h, h], 'strs': [False, True, True]}, chunked=i % 2 == 1))
+		cases.append(_msg('resp', {'t': 'gen', 'items': [u.encode('utf-8').hex(), b''.hex(), u.encode('utf-8').hex()], 'strs': [True, False, True]}, chunked=i % 3 == 0, coding=[None, 'gzip', 'deflate'][i % 3]))
+		cases.append(_msg('req', {'t': 'tuple', 'items': [u.encode('utf-8').hex()], 'strs': [True]}, segs=['', u, 'x' + u], query=[[u, u]], method='PUT'))
+		cases.append({'k': 'body', 'body': {'t': 'text', 'items': [(u * 3).encode('utf-8').hex()]}, 'chunked': i % 2 == 0, 'coding': None, 'trailer': []})
+	alltext = ''.join(UNI)
+	cases.append(_msg('resp', {'t': 'text', 'items': [alltext.encode('utf-8').hex()]}))
+	cases.append(_msg('req', {'t': 'text', 'items': [alltext.encode('utf-8').hex()]}, chunked=True))
+
+	# (3) lengths at and around limits
+	types = ['bytes', 'list', 'bytesio', 'file', 'gen', 'text', 'tuple', 'bytearray']
+	for i, n in enumerate(LIMITS):
+		if n > 20000 and not big and i % 1:
+			continue
+		data = (bytes(range(256)) * (n // 256 + 1))[:n] if n % 2 else b'a' * n
+		for j in range(3):
+			t = types[(i + 3 * j) % len(types)]
+			if t == 'text':
+				data_t = b'a' * n
+			else:
+				data_t = data
+			kind = 'resp' if (i + j) % 2 else 'req'
+			cases.append(_msg(kind, {'t': t, 'items': [data_t.hex()], 'pos': n if j == 1 else 0}, chunked=(i + j) % 3 != 0, ops=[['p', 1000], ['c'], ['c']], nocoq=n > 1100))
+		if n <= 8192:
+			v = (b'v' * n).hex()
+			cases.append({'k': 'hcompose', 'hdrs': [['X-Custom', v], ['Set-Cookie', (b'a=' + b'c' * (n - 2)).hex()]], 'nocoq': n > 1100})
+			cases.append(_one('resp' if i % 2 else 'req', [['hset', 'X-Custom', v]], nocoq=n > 1100))
+			cases.append(_one('req' if i % 2 else 'resp', [['path' if i % 2 else 'trailer'] + ([['', 's' * n]] if i % 2 else ['X-T', v])], chunked=True, nocoq=n > 1100))
+		if n <= 1024:
+			cases.append(_msg('resp', hello, reason='r' * n, status=[200, 404, 299][i % 3], ops=[['p', 1000], ['c']]))
+		if n in (255, 256, 1023, 1024):
+			for t in ('list', 'gen'):
+				cases.append(_msg('req' if n % 2 else 'resp', {'t': t, 'items': [b'z'.hex()] * n}, chunked=True, ops=[['p', 1000], ['c'], ['c']], nocoq=True))
+	for n in (9, 10, 15, 16, 17, 255, 256, 4095, 4096, 65535, 65536):   # the number of hex digits of a chunk-size changes
+		cases.append(_msg('resp', {'t': 'list', 'items': [(b'p' * n).hex(), b'q'.hex()]}, chunked=True, ops=[['p', 1000], ['c']], nocoq=n > 1100))
+		cases.append({'k': 'body', 'body': {'t': 'gen', 'items': [(b'p' * n).hex()]}, 'chunked': True, 'coding': None, 'trailer': [], 'nocoq': n > 1100})
+
+	# (4) registries, read from the tree
+	reg = registries()
+	for code in reg['status']:
+		if code in STATUSES and not big:
+			continue   # the pool above has them
+		for rm, ch in (('GET', False), ('GET', True), ('HEAD', False)):
+			cases.append(_msg('resp', hello, chunked=ch, status=code, reason=None, rmethod=rm))
+	for i, name in enumerate(reg['header']):
+		value = REG_VALUES.get(name.lower(), 'x')
+		for j, spelled in enumerate(_cases3(name)):
+			kind = 'resp' if (i + j) % 2 else 'req'
+			if name.lower() == 'content-encoding':
+				kind = 'resp'   # a request is not coded by prepare (D43)
+			cases.append(_one(kind, [['hset', spelled, value.encode('latin-1').hex()]], ops=[['p', 1000], ['c']]))
+	for table, field in (('ce', 'Content-Encoding'), ('te', 'Transfer-Encoding')):
+		for name, codec in reg[table]:
+			# Kept out (reported): a name registered with NotImplementedError (identity, compress, br, exi, pack200-gzip) makes serialising fail with
+			# AttributeError; a caller-set Transfer-Encoding naming any coding but chunked (gzip, deflate, identity, compress; also 'gzip, chunked',
+			# 'chunked, chunked') is sent as set - together with Content-Length when chunked is not in it - and no transfer coding is applied.
+			if codec is NotImplementedError or (table == 'te' and name != 'chunked'):
+				continue
+			for spelled in _cases3(name) + [' ' + name, name + ' ', name + ';q=1' if table == 'ce' else ',' + name, name.upper() + ' ']:
+				for kind in (('resp',) if table == 'ce' else ('req', 'resp')):
+					cases.append(_one(kind, [['hset', field, spelled.encode('latin-1').hex()]], ops=[['p', 1000], ['c'], ['p', 1000], ['c']]))
+	# a registered media type is not a content coding: refused (InvalidHeader), never run as a coding
+	for name in reg['media']:
+		for spelled in _cases3(name)[:2]:
+			cases.append(_one('resp', [['hset', 'Content-Encoding', spelled.encode('latin-1').hex()]], ops=[['p', 1000], ['c']]))
+	for name in reg['method']:
+		for spelled in _cases3(name):
+			for ch in (False, True):
+				cases.append(_msg('req', hello, chunked=ch, method=spelled))
+
+	# (5) degenerate values: in every field prepare() looks at, in the coding fields, in the body, the reason phrase, the trailer, the query
+	for i, name in enumerate(DEGENERATE_FIELDS):
+		for j, v in enumerate(DEGENERATE):
+			kind = 'resp' if (i + j) % 2 else 'req'
+			if name in ('Accept-Ranges', 'Allow', 'Content-Range', 'Set-Cookie', 'Www-Authenticate', 'Etag', 'Last-Modified', 'Content-Length'):
+				kind = 'resp'
+			cases.append(_one(kind, [['hset', name, v.encode('latin-1').hex()]], ops=[['p', 1000], ['c']], **({'status': 405} if name == 'Allow' else {})))
+	for v in ['', ' ', ',', ', ,', 'chunked,', ',chunked', ' chunked ', 'chunked ,', '\tchunked']:
+		for kind in ('req', 'resp'):
+			cases.append(_one(kind, [['hset', 'Transfer-Encoding', v.encode('latin-1').hex()]]))
+	for v in ['', ' ', ',', 'gzip,', ',gzip', ' gzip ', '"gzip', '"gzip"', 'gzip;', ';', 'gzip;q']:
+		cases.append(_one('resp', [['hset', 'Content-Encoding', v.encode('latin-1').hex()]]))
+	for items, t, strs in (([], 'list', []), ([''], 'list', [True]), (['', ''], 'gen', [False, True]), ([], 'gen', []), ([' '], 'text', None), (['\r\n'], 'bytes', None), (['0\r\n\r\n'], 'bytes', None),
+			(['\r\n\r\n'], 'list', [True]), (['HTTP/1.1 200 OK\r\n\r\n'], 'bytesio', None), (['5\r\nhello\r\n0\r\n\r\n'], 'file', None), (['\x00'], 'bytes', None), ([' ', '', '\t'], 'tuple', [True, True, False])):
+		body = {'t': t, 'items': [x.encode('latin-1').hex() for x in items]}
+		if strs is not None:
+			body['strs'] = strs
+		for kind in ('req', 'resp'):
+			for ch in (False, True):
+				cases.append(_msg(kind, dict(body), chunked=ch))
+	for reason in ('', ' ', 'a  b', '\t', ' x ', '-'):
+		cases.append(_msg('resp', hello, reason=reason, status=200))
+		cases.append(_msg('resp', hello, reason=reason, status=299, chunked=True))
+	for tr in ([['X-T', '']], [['X-T', b' '.hex()]], [['X-T', b','.hex()]], [['x-t', b'"'.hex()], ['A', b''.hex()]]):
+		cases.append(_msg('resp', hello, chunked=True, trailer=tr))
+		cases.append(_msg('req', hello, chunked=True, trailer=tr))
+	for q in ([], [['', '']], [['', 'v']], [['k', '']], [['&', '=']], [[' ', ' ']]):
+		cases.append(_msg('req', hello, query=q))
+	return cases
